@@ -25,6 +25,12 @@ def _rng(c, lo, hi):
 
 
 class SymStr(str):
+    def __copy__(self):
+        return self
+
+    def __deepcopy__(self, memo):
+        return self
+
     _vf_sym = True
     _vf_str = True
 
@@ -442,6 +448,13 @@ def utf8_decode(b):
 
 class SymDecStr(str):
     """canonical decimal text of a symbolic int: opaque, injective (str(n) <-> int(s))"""
+
+    def __copy__(self):
+        return self
+
+    def __deepcopy__(self, memo):
+        return self
+
 
     _vf_sym = True
     _vf_decstr = True
